@@ -24,6 +24,7 @@ The proofs unfold both sides and decide what is left, so that harmless rewrites 
 -/
 set_option linter.unusedTactic false
 set_option linter.unreachableTactic false
+set_option linter.unusedSimpArgs false
 
 namespace GV.C19Src
 open GV GV.CoordObj GV.Dms GV.PyStr
@@ -68,7 +69,12 @@ theorem intTuple_mkDMS (dd : ℚ) (pos neg : Char) :
 theorem toDms_eq (c : Coord) : Src.Dms.toDms c = (intTuple (Dms.toDms c).1, intTuple (Dms.toDms c).2) := by
   simp only [Src.Dms.toDms, Dms.toDms, intTuple_mkDMS, convert_eq]
   have h0 : ((0 : ℤ) : ℚ) = 0 := by norm_num
-  simp only [h0, decide_eq_true_eq]
+  rcases le_or_gt 0 c.lon with h1 | h1 <;> rcases le_or_gt 0 c.lat with h2 | h2 <;>
+    first
+    | simp [h0, h1, h2, not_lt.mpr h1, not_lt.mpr h2]
+    | simp [h0, h1, h2, not_lt.mpr h1, not_le.mpr h2]
+    | simp [h0, h1, h2, not_le.mpr h1, not_lt.mpr h2]
+    | simp [h0, h1, h2, not_le.mpr h1, not_le.mpr h2]
 
 /-- the tuple `from_dms` reads for one axis (floats throughout) -/
 def ratTuple (x : DMS) : ℚ × ℚ × ℚ × List Char := (x.deg, x.min, x.sec, [x.hemi])
